@@ -42,6 +42,9 @@ fn dispatch(cmd: &str, rest: &[String]) {
 		"laws-record" => laws::record(rest),
 		"laws-impulse" => laws::impulse(rest),
 		"prefix-record" => prefix::record(rest),
+		"ind-catalog" => indicators::catalog(rest),
+		"cfg-replay" => indicators::cfg_replay(rest),
+		"ind-api-replay" => indicators::api_replay(rest),
 		"ind-record" => indicators::record(rest),
 		"num-record" => num::record(rest),
 		"tok-replay" => tok::replay(rest),
